@@ -473,6 +473,30 @@ def nearly_reduced_pair(rnd, d1, d2):
         return g
 
 
+def near_parallel_axes_pair(rnd):
+    """two genuine parabolas whose axes make a small but non-zero angle (about 0.44 * 2^-k rad, k = 9..19): the L2-normalised
+    intersection polynomial has a small GENUINE leading coefficient (t^4 coefficient = (n . a2)^2 between about 1e-12 and 1e-6 of the
+    others) - between round-off and the 2^-26 'numerically zero' threshold of the repeated-root test, where a coefficient must not be
+    discarded before the root solve.  Exact dyadic nets, simple transversal crossings, presented under an exact similarity (power-of-two
+    scale, axis swap, mirror, dyadic translation).  The unchanged tree returns exactly the certified set on this family (seed C15_g)."""
+    k = rnd.randint(9, 19)
+    delta = Fr(rnd.choice([1, -1]), 2 ** k)
+    first = [[Fr(0), Fr(9, 2), Fr(3)], [Fr(0), Fr(3, 2), Fr(-3)]]
+    second = [[Fr(9, 4), Fr(0), Fr(9, 2) + 3 * delta], [Fr(9, 4), Fr(-3), Fr(-3, 2) - 3 * delta]]
+    sc = Fr(2) ** rnd.randint(-3, 3)
+    tx, ty = Fr(rnd.randint(-8, 8), 4), Fr(rnd.randint(-8, 8), 4)
+    swap, mx, my = rnd.random() < 0.5, rnd.choice([1, -1]), rnd.choice([1, -1])
+
+    def tr(net):
+        x = [mx * sc * v + tx for v in net[0]]
+        y = [my * sc * v + ty for v in net[1]]
+        return [y, x] if swap else [x, y]
+    b1, b2 = tr(first), tr(second)
+    if rnd.random() < 0.5:
+        b1, b2 = b2, b1
+    return {"family": "near-parallel-axes", "tag": "axes at angle 0.44 * 2^-%d, scale %s" % (k, sc), "b1": b1, "b2": b2}
+
+
 def high_degree_pair(rnd):
     """one curve of exact degree 5 or 6 (not an elevated lower-degree curve) against a curve of degree 1..4, boxes meeting"""
     while True:
@@ -544,8 +568,16 @@ def fail(res, key, what, rc):
     if m:
         key = "geometric-misses:" + m.group(1)                 # the C03 families, seen from C15
     if key.startswith("strategies-disagree:algebraic-misses"):
-        what = "[class %s] %s" % (key.split(":", 2)[2] if key.count(":") >= 2 else "-", what)
-        key = "algebraic-misses:simple-root-lost"                # low-rate on the unchanged tree; guarded by miss_rate_guard
+        cls = key.split(":", 2)[2] if key.count(":") >= 2 else "-"
+        what = "[class %s] %s" % (cls, what)
+        d = res.dist.setdefault("algebraic_miss_class", {})
+        d[cls] = d.get(cls, 0) + 1
+        if cls.startswith("designed-family:"):
+            # a family constructed so that the unchanged tree returns exactly the certified set: a miss there is NOT the listed
+            # low-rate finding F-P and gets a key of its own (not listed)
+            key = "algebraic-misses:" + cls.split(":", 1)[1]
+        else:
+            key = "algebraic-misses:simple-root-lost"            # low-rate on the unchanged tree; guarded by miss_rate_guard
         _MISSES["algebraic"] += 1
     if key.startswith("triangle-algebraic-raised:ValueError:edge-pair-algebraic-misses"):
         key = "triangle-algebraic-raised:ValueError:edge-pair-algebraic-misses"
@@ -558,6 +590,7 @@ def fail(res, key, what, rc):
         d[key] = d.get(key, 0) + 1
 
 
+DESIGNED_FAMILIES = {"near-parallel-axes"}
 MODEL_QUEUE = []
 MODEL_BUDGET = [120]
 
@@ -707,6 +740,14 @@ def build_cases(rnd, tier, search):
             g = nearly_reduced_pair(rnd, d1, d2)
             if rnd.random() < 0.5:
                 g["b1"], g["b2"] = g["b2"], g["b1"]
+            add("compare", g)
+    # parabolas with nearly parallel axes: small genuine leading coefficient of the intersection polynomial (seed C15_g)
+    for i in range(120 if thorough else 36):
+        g = near_parallel_axes_pair(rnd)
+        if i % 3 == 2:
+            a, b = rnd.choice([(1, 0), (0, 1), (1, 1), (2, 0), (0, 2), (2, 2), (1, 2)])
+            add("compare", g, a, b)
+        else:
             add("compare", g)
     # elevated beyond the degree the reduction accepts (presented degree 5 or 6)
     for _ in range(60 if thorough else 16):
@@ -937,6 +978,8 @@ def check_compare(bezier, res, probe, c, route):
                 probe.rec(deg, alg_missed_roots=len(missed), pairs_alg_misses=1)
             if missed:
                 cls = algebraic_miss_class(b1, b2, missed) if strategy == "algebraic" else geometric_miss_class(b1, b2, missed)
+                if strategy == "algebraic" and c["family"] in DESIGNED_FAMILIES:
+                    cls = "designed-family:" + c["family"]
                 r = missed[0]
                 fail(res, "strategies-disagree:%s:%s-misses:%s" % (deg, strategy, cls),
                             "%s: the %s strategy does not report %d of %d certified simple crossings, e.g. (s, t) in "
@@ -1133,6 +1176,9 @@ def main():
         work[0][0]["role"] = rep["role"]
     else:
         cases = build_cases(rnd, tier, bool(os.environ.get("VERIF_SEARCH")))
+        only = os.environ.get("VERIF_C15_ONLY")               # development aid: one family
+        if only:
+            cases = [c for c in cases if c.get("family") == only]
         work = [(c, rnd.choice(["Curve.intersect", "all_intersections"])) for c in cases]
     budget = float(os.environ.get("VERIF_C15_BUDGET", "0") or 0)
     t0 = time.time()
